@@ -158,6 +158,7 @@ def run(ctx):
     nil_with_attributes(ctx)
     outlined_presentations(ctx)
     times_and_mixed_use(ctx)
+    arrays_of_arrays_and_two_ports(ctx)
     if metas:
         ctx.sample({"input": metas[0][0], "decoded": metas[0][1]})
 
@@ -282,6 +283,68 @@ def times_and_mixed_use(ctx):
     if got != ["list", [["int", 1], ["int", 22], ["int", 333]]]:
         ctx.fail("a reply is not decoded by the rules of the operation's OUTPUT body (encoded) when the input body is "
                  "literal", meta, got, ["list", [["int", 1], ["int", 22], ["int", 333]]])
+
+
+def arrays_of_arrays_and_two_ports(ctx):
+    """(a) an rpc/encoded array of arrays (arrayType with two bracket groups) decodes to its integers; (b) two ports of
+    one service whose port types define an operation of one name with different outputs, both invoked on one client
+    in either order: each reply is decoded by the output of its own port's operation."""
+    from harness.props import c18
+    env = ('<e:Envelope xmlns:e="%s" xmlns:xsi="%s" xmlns:xsd="%s" xmlns:soapenc="%s" xmlns:x="%s"><e:Body>'
+           '<m:fResponse xmlns:m="%s">%%s</m:fResponse></e:Body></e:Envelope>'
+           % (xmlread.ENV11, xmlread.XSI, xmlread.XSD, xmlread.ENC, wsdlkit.TNS, wsdlkit.TNS))
+    row = '<item soapenc:arrayType="xsd:int[2]">%s</item>'
+    doc = env % ('<return xsi:type="x:Matrix" soapenc:arrayType="xsd:int[][2]">%s</return>'
+                 % (row % "<i>1</i><i>2</i>" + row % "<i>3</i><i>4</i>"))
+    ctx.case(("array-of-arrays",), True)
+    try:
+        got = c18.leaves(wsdlkit.client(c18.make_wsdl("x:Matrix")).service.f("x", __inject={"reply": doc.encode()}))
+    except Exception as e:
+        got = "%s: %s" % (type(e).__name__, e)
+    if got != [1, 2, 3, 4]:
+        ctx.fail("an array of arrays does not decode to its integers", {"stream": "array-of-arrays"}, got, [1, 2, 3, 4])
+    parts = []
+    for n, members in (("1", '<xsd:element name="n" type="xsd:int"/>'),
+                       ("2", '<xsd:element name="s" type="xsd:string"/><xsd:element name="b" type="xsd:boolean"/>')):
+        parts.append('<xsd:schema targetNamespace="urn:v%s" elementFormDefault="qualified"><xsd:element name="get">'
+                     '<xsd:complexType><xsd:sequence/></xsd:complexType></xsd:element><xsd:element name="getResponse">'
+                     '<xsd:complexType><xsd:sequence>%s</xsd:sequence></xsd:complexType></xsd:element></xsd:schema>'
+                     % (n, members))
+    w = ('<?xml version="1.0"?><wsdl:definitions targetNamespace="urn:w" xmlns:wsdl="http://schemas.xmlsoap.org/wsdl/" '
+         'xmlns:w="urn:w" xmlns:v1="urn:v1" xmlns:v2="urn:v2" xmlns:soap="http://schemas.xmlsoap.org/wsdl/soap/" '
+         'xmlns:xsd="http://www.w3.org/2001/XMLSchema"><wsdl:types>%s</wsdl:types>' % "".join(parts))
+    for n in ("1", "2"):
+        w += ('<wsdl:message name="i%s"><wsdl:part name="parameters" element="v%s:get"/></wsdl:message>'
+              '<wsdl:message name="o%s"><wsdl:part name="parameters" element="v%s:getResponse"/></wsdl:message>' % (n, n, n, n))
+    for n in ("1", "2"):
+        w += ('<wsdl:portType name="PT%s"><wsdl:operation name="get"><wsdl:input message="w:i%s"/><wsdl:output '
+              'message="w:o%s"/></wsdl:operation></wsdl:portType>' % (n, n, n))
+    for n in ("1", "2"):
+        w += ('<wsdl:binding name="B%s" type="w:PT%s"><soap:binding style="document" '
+              'transport="http://schemas.xmlsoap.org/soap/http"/><wsdl:operation name="get"><soap:operation '
+              'soapAction="g%s"/><wsdl:input><soap:body use="literal"/></wsdl:input><wsdl:output><soap:body '
+              'use="literal"/></wsdl:output></wsdl:operation></wsdl:binding>' % (n, n, n))
+    w += ('<wsdl:service name="S"><wsdl:port name="one" binding="w:B1"><soap:address location="http://x.invalid/1"/>'
+          '</wsdl:port><wsdl:port name="two" binding="w:B2"><soap:address location="http://x.invalid/2"/></wsdl:port>'
+          '</wsdl:service></wsdl:definitions>')
+    replies = {"one": ('<e:Envelope xmlns:e="%s"><e:Body><getResponse xmlns="urn:v1"><n>42</n></getResponse></e:Body>'
+                       '</e:Envelope>' % xmlread.ENV11).encode(),
+               "two": ('<e:Envelope xmlns:e="%s"><e:Body><getResponse xmlns="urn:v2"><s>7</s><b>true</b></getResponse>'
+                       '</e:Body></e:Envelope>' % xmlread.ENV11).encode()}
+    want = {"one": ["int", 42], "two": [["s", "Text", "7"], ["b", "bool", True]]}
+    for order in (("one", "two", "one"), ("two", "one", "two")):
+        c = wsdlkit.client(w.encode())
+        for port in order:
+            meta = {"stream": "two-ports-one-operation-name", "order": list(order), "port": port}
+            ctx.case(common.canon(meta), True)
+            try:
+                r = c.service[port].get(__inject={"reply": replies[port]})
+                got = [[k, type(v).__name__, v if not isinstance(v, str) else str(v)] for k, v in r] \
+                    if hasattr(r, "__keylist__") else [type(r).__name__, r]
+            except Exception as e:
+                got = "%s: %s" % (type(e).__name__, e)
+            if got != want[port]:
+                ctx.fail("a reply is not decoded by the output of its own port's operation", meta, got, want[port])
 
 
 def nil_with_attributes(ctx):
